@@ -565,6 +565,7 @@ def normalise(tree: ast.Module, path: str) -> Tuple[ast.Module, List[str]]:
         out = inl.run()
         _sink_raises(out, inl.log, path)
         _propagate_new_locals(out, inl.log, path)
+        _mirror_locals(out, inl.log, path)
         return out, inl.log
     except RecursionError:
         return tree, inl.log + [f'{path}: normalisation abandoned (recursion)']
@@ -583,6 +584,37 @@ def _load_known_locals() -> Dict[str, set]:
             return {k: set(v) for k, v in json.load(fh).items()}
     except (OSError, ValueError):
         return {}
+
+
+def _chain(e) -> Optional[str]:
+    parts = []
+    while isinstance(e, ast.Attribute):
+        parts.append(e.attr)
+        e = e.value
+    if isinstance(e, ast.Name):
+        parts.append(e.id)
+        return '.'.join(reversed(parts))
+    return None
+
+
+def _touched_objects(fn, me: Optional[str]) -> set:
+    """Objects (dotted chains) whose state a call in this function may change: receivers of method calls and arguments of
+    calls, `self` excepted (its methods are inspected for the attributes they store)."""
+    out = set()
+    for c in ast.walk(fn):
+        if not isinstance(c, ast.Call):
+            continue
+        if isinstance(c.func, ast.Attribute):
+            ch = _chain(c.func.value)
+            if ch is not None and ch != me:
+                out.add(ch)
+        for a in list(c.args) + [k.value for k in c.keywords]:
+            ch = _chain(a.value if isinstance(a, ast.Starred) else a)
+            if ch is not None and ch != me and '.' not in ch:
+                out.add(ch)
+            elif ch is not None and ch != me:
+                out.add(ch)
+    return out
 
 
 KNOWN_LOCALS = _load_known_locals()
@@ -629,6 +661,8 @@ def _propagate_new_locals(tree: ast.Module, log: List[str], path: str) -> None:
                         if st.args.args:
                             todo += list(methods_called_on_self(st, st.args.args[0].arg))
 
+        touched = _touched_objects(fn, me)
+
         def pure(e) -> bool:
             if isinstance(e, ast.Constant):
                 return True
@@ -636,6 +670,8 @@ def _propagate_new_locals(tree: ast.Module, log: List[str], path: str) -> None:
                 return isinstance(e.ctx, ast.Load) and (store_count.get(e.id, 0) == 0 or (store_count.get(e.id, 0) == 1 and e.id not in params)) \
                     and not (e.id in params and store_count.get(e.id, 0) > 0)
             if isinstance(e, ast.Attribute):
+                if _chain(e.value) in touched:
+                    return False        # the object is called / handed on by this function: its fields may change
                 return e.attr not in own_stores and e.attr not in callee_stores and pure(e.value)
             if isinstance(e, (ast.BinOp,)):
                 return pure(e.left) and pure(e.right)
@@ -687,4 +723,144 @@ def _propagate_new_locals(tree: ast.Module, log: List[str], path: str) -> None:
             elif isinstance(st, ast.ClassDef):
                 rec(st, f'{prefix}{st.name}.', st)
     rec(tree, '', None)
+    ast.fix_missing_locations(tree)
+
+
+# --------------------------------------------------------------------------------------
+# a new local that mirrors a field of an object (re-read after every call that can change it) is read through
+# --------------------------------------------------------------------------------------
+
+def _mirror_locals(tree: ast.Module, log: List[str], path: str) -> None:
+    """In a function of the pinned inventory, a local the pinned function does not have, every definition of which is the
+    plain read `L = obj.field` of one and the same field, is replaced by that read where it is used - provided that on no
+    path a statement that may change the field (a call on `obj` or one that receives it, a store to the field, a new
+    binding of `obj`) lies between the latest definition of L and a use of L, and that L is defined on every path to each
+    use.  Then L equals `obj.field` at every use, and keeping the copy is unobservable."""
+    from .cfg import CFG, defs_of
+
+    def do(fn: ast.FunctionDef, qual: str):
+        known = KNOWN_LOCALS.get(f'{path}::{qual}')
+        if known is None:
+            return
+        params = {a.arg for a in fn.args.args + fn.args.kwonlyargs + fn.args.posonlyargs}
+        defs: Dict[str, List[ast.stmt]] = {}
+        bad: set = set()
+        for x in ast.walk(fn):
+            if isinstance(x, (ast.FunctionDef, ast.Lambda, ast.ClassDef)) and x is not fn:
+                for y in ast.walk(x):
+                    if isinstance(y, ast.Name):
+                        bad.add(y.id)       # touched by a nested scope: not followed
+            if isinstance(x, ast.Assign) and len(x.targets) == 1 and isinstance(x.targets[0], ast.Name):
+                defs.setdefault(x.targets[0].id, []).append(x)
+            elif isinstance(x, ast.AnnAssign) and isinstance(x.target, ast.Name) and x.value is not None:
+                defs.setdefault(x.target.id, []).append(x)
+        stores: Dict[str, int] = {}
+        for x in ast.walk(fn):
+            if isinstance(x, ast.Name) and isinstance(x.ctx, (ast.Store, ast.Del)):
+                stores[x.id] = stores.get(x.id, 0) + 1
+        cfg = None
+        for name, ds in sorted(defs.items()):
+            if name in known or name in params or name in bad or len(ds) < 2 or stores.get(name, 0) != len(ds):
+                continue
+            vals = {ast.unparse(d.value) for d in ds}
+            v0 = ds[0].value
+            if len(vals) != 1 or not isinstance(v0, ast.Attribute) or _chain(v0) is None:
+                continue
+            obj = _chain(v0.value)
+            root = obj.split('.')[0]
+            if cfg is None:
+                cfg = CFG(fn)
+            def_nodes = {n.id for n in cfg.nodes if n.ast is not None and any(n.ast is d for d in ds)}
+            if len(def_nodes) != len(ds):
+                continue
+
+            def may_change(n) -> bool:
+                if n.ast is None or n.id in def_nodes:
+                    return False
+                roots = [n.ast] if n.kind in ('stmt', 'test', 'for', 'with') else []
+                if n.kind in ('for',):
+                    roots = [n.ast.iter, n.ast.target]
+                if n.kind == 'with':
+                    roots = [i.context_expr for i in n.ast.items]
+                if n.kind == 'test':
+                    roots = [n.ast]
+                if root in [d_.split('.')[0] for d_ in defs_of(n)]:
+                    return True
+                for r in roots:
+                    for c in ast.walk(r):
+                        if isinstance(c, ast.Attribute) and isinstance(c.ctx, (ast.Store, ast.Del)) and c.attr == v0.attr:
+                            return True
+                        if isinstance(c, ast.Call):
+                            rc = _chain(c.func.value) if isinstance(c.func, ast.Attribute) else None
+                            if rc is not None and (rc == obj or obj.startswith(rc + '.') or rc.startswith(obj + '.')):
+                                return True
+                            for a in list(c.args) + [k.value for k in c.keywords]:
+                                ac = _chain(a.value if isinstance(a, ast.Starred) else a)
+                                if ac is not None and (ac == obj or obj.startswith(ac + '.')):
+                                    return True
+                return False
+            changers = [n for n in cfg.nodes if may_change(n)]
+            users = [n for n in cfg.nodes if n.ast is not None and n.id not in def_nodes and any(
+                isinstance(x, ast.Name) and x.id == name and isinstance(x.ctx, ast.Load)
+                for r in ([n.ast] if n.kind in ('stmt', 'test') else [getattr(n.ast, 'iter', None)] if n.kind == 'for' else [])
+                if r is not None for x in ast.walk(r))]
+            all_loads = [x for x in ast.walk(fn) if isinstance(x, ast.Name) and x.id == name and isinstance(x.ctx, ast.Load)]
+            n_user_loads = sum(1 for n in users for r in ([n.ast] if n.kind in ('stmt', 'test') else [n.ast.iter])
+                               for x in ast.walk(r) if isinstance(x, ast.Name) and x.id == name and isinstance(x.ctx, ast.Load))
+            if not users or n_user_loads != len(all_loads):
+                continue            # a use this pass does not see (compound statement headers it does not model)
+
+            def reach(src, avoid: set) -> set:
+                seen, work = set(), [src]
+                while work:
+                    a_ = work.pop()
+                    for b_, _l in a_.succ:
+                        if b_.id in seen:
+                            continue
+                        seen.add(b_.id)
+                        if b_.id in avoid:
+                            continue
+                        work.append(b_)
+                return seen
+            ok = True
+            user_ids = {u.id for u in users}
+            # (a) defined on every path: the entry does not reach a use without passing a definition
+            if reach(cfg.entry, def_nodes) & user_ids:
+                ok = False
+            # (b) no changer reaches a use without passing a definition (the changer statement itself may also be a use:
+            #     its own read happens before its call only if the use is an argument - refused)
+            for ch in changers:
+                if ch.id in user_ids or reach(ch, def_nodes) & user_ids:
+                    ok = False
+                    break
+            if not ok:
+                continue
+
+            class _Sub(ast.NodeTransformer):
+                def visit_Name(self, n):
+                    if n.id == name and isinstance(n.ctx, ast.Load):
+                        return ast.copy_location(copy.deepcopy(v0), n)
+                    return n
+
+            class _Drop(ast.NodeTransformer):
+                def generic_visit(self, node):
+                    super().generic_visit(node)
+                    for fld in ('body', 'orelse', 'finalbody'):
+                        sub = getattr(node, fld, None)
+                        if isinstance(sub, list) and any(x in ds for x in sub):
+                            kept = [x for x in sub if x not in ds]
+                            setattr(node, fld, kept or [ast.copy_location(ast.Pass(), sub[0])])
+                    return node
+            _Sub().visit(fn)
+            _Drop().visit(fn)
+            cfg = None
+            log.append(f'{path}:{ds[0].lineno} new local `{name}` of {qual} mirrors `{ast.unparse(v0)}` and is read through')
+
+    def rec(node, prefix):
+        for st in node.body:
+            if isinstance(st, ast.FunctionDef):
+                do(st, f'{prefix}{st.name}')
+            elif isinstance(st, ast.ClassDef):
+                rec(st, f'{prefix}{st.name}.')
+    rec(tree, '')
     ast.fix_missing_locations(tree)
